@@ -98,6 +98,10 @@ func cmdForEachDefault(p *lang.Process, steps int, additional []string) error {
 		return err
 	}
 
+	if steps < 0 {
+		return fmt.Errorf("`%s` cannot be a negative number", foreachStep)
+	}
+
 	var (
 		step      int
 		iteration int
